@@ -521,6 +521,49 @@ def run(index, rep, tier):
                                                          "dendropy.datamodel.treecollectionmodel", "dendropy.calculate.phylogeneticdistance", "dendropy.calculate.treecompare", "dendropy.utility.bitprocessing"])
         rep.floor("R14.12", "bitmask operations examined", 25, nbm)
 
+    # ---- R14.13 every pair of distinct taxa is recorded
+    with rep.section("R14.13"):
+        rep.rule("R14.13", "every pair of distinct taxa is recorded: where a compile_from_* function adds to `_all_distinct_mapped_taxa_pairs` inside its pair loops, the only condition between the inner loop and the add is that the two taxa differ (`t1 is not t2` / `!=`), or none - a condition on what has been seen before (membership in `_mapped_taxa`) records the pairs of the first row only, and the mean-pairwise summaries average over n-1 pairs instead of n(n-1)/2")
+        n13 = 0
+        for m_ in pdm.methods.values():
+            if not m_.name.startswith("compile_from_"):
+                continue
+            g = cfg_of(m_)
+            pmap = parent_map(m_.node)
+            for c in calls_in(m_.node):
+                if not (call_name(c) == "add" and norm(c.func.value) == "self._all_distinct_mapped_taxa_pairs"):
+                    continue
+                n13 += 1
+                # conditions (If tests) enclosing the add, up to the nearest enclosing loop
+                conds = []
+                q = pmap.get(c)
+                prev = c
+                while q is not None and not isinstance(q, (ast.For, ast.While, ast.FunctionDef)):
+                    if isinstance(q, ast.If):
+                        conds.append(q.test)
+                    prev = q
+                    q = pmap.get(q)
+                loopvars = set()
+                r = q
+                while r is not None and not isinstance(r, ast.FunctionDef):
+                    if isinstance(r, ast.For):
+                        loopvars |= {x.id for x in ast.walk(r.target) if isinstance(x, ast.Name)}
+                    r = pmap.get(r)
+                bad = []
+                for t in conds:
+                    ok = isinstance(t, ast.Compare) and len(t.ops) == 1 and isinstance(t.ops[0], (ast.IsNot, ast.NotEq, ast.Is, ast.Eq)) and {norm(t.left), norm(t.comparators[0])} <= {norm(ast.Name(id=v, ctx=ast.Load())) for v in loopvars} | {x for x in (norm(t.left), norm(t.comparators[0])) if x.split(".")[0] in loopvars}
+                    if not ok:
+                        bad.append(t)
+                rep.check(not bad, "R14.13", m_.qualname, "pair recorded only under `%s`" % (norm(bad[0])[:50] if bad else ""), fn_where(m_, c), "%s: pairs recorded for every two distinct taxa" % m_.name,
+                          "%s adds to `_all_distinct_mapped_taxa_pairs` only when `%s` holds: that depends on what was seen in earlier iterations, so most pairs are never recorded - distances() returns n-1 entries, sum_of_distances() and mean_pairwise_distance() of a matrix read back from CSV are computed over the pairs of the first row alone" % (m_.qualname, norm(bad[0])[:60] if bad else ""))
+        rep.floor("R14.13", "pair recordings in the compile functions", 2, n13)
+
+    # ---- R14.14 the ancestor query rests on one bit per taxon
+    with rep.section("R14.14"):
+        rep.rule("R14.14", "the most-recent-common-ancestor query rests on one bit per taxon: Tree.mrca works on leafset bitmasks, so it is only as right as the namespace's promise that no two members ever share a bit - the accession counter only grows and both index maps are written together (C10 R10.2, R10.3), also across removals and later additions")
+        nb = borrow(index, rep, "C10", {"R10.2", "R10.3"}, "R14.14")
+        rep.floor("R14.14", "borrowed obligations", 3, nb)
+
 
 def option_default_rule(index, rep, rid, cq, options):
     ci = index.klass(cq)
